@@ -29,6 +29,8 @@ pub mod renamer;
 pub mod response_iterator;
 pub mod rr_iterator;
 pub mod synth;
+#[cfg(dnssector_verif)]
+pub mod verif_hooks;
 
 pub use crate::c_abi::*;
 pub use crate::compress::*;
